@@ -1,4 +1,4 @@
-import Saito.Lemmas.Codec
+import Saito.Lemmas.Msg
 /-!
 # C09 — wire and disk formats round-trip and preserve identity
 Property theorems only (helper lemmas live in `Saito/Lemmas`). `wf` predicates are the explicit,
@@ -34,6 +34,97 @@ theorem tx_encode_injective (t u : Tx) (ht : t.wf) (hu : u.wf) (h : t.encode = u
   have a := tx_roundtrip {} t ht
   have b := tx_roundtrip {} u hu
   rw [h] at a; rw [a] at b; exact Res.ok.inj b
+
+/-! ### blocks -/
+/-- decode ∘ encode = id for full blocks (any number of transactions), whatever the defect flags -/
+theorem block_roundtrip (fl : CodecFlags) (b : Block) (h : b.wf) : Block.decode fl (b.encode false) = .ok b :=
+  Block.decode_encode fl b h
+/-- a block that crosses the wire or the disk keeps the bytes its hash and signature are computed from -/
+theorem block_identity_preserved (fl : CodecFlags) (b : Block) (h : b.wf) :
+    (Block.decode fl (b.encode false)).map Block.sigBytes = .ok b.sigBytes := by
+  rw [block_roundtrip fl b h]; rfl
+/-- header-only encoding decodes to the header projection: same header fields, no transactions -/
+theorem block_header_roundtrip (fl : CodecFlags) (b : Block) (h : b.wf) :
+    Block.decode fl (b.encode true) = .ok { b with txs := [], isHeader := !(b.id == 1 && b.prev == zeros 32) } :=
+  Block.decode_encode_header fl b h
+theorem block_header_identity_preserved (fl : CodecFlags) (b : Block) (h : b.wf) :
+    (Block.decode fl (b.encode true)).map Block.sigBytes = .ok b.sigBytes := by
+  rw [block_header_roundtrip fl b h]; rfl
+theorem block_size (b : Block) (h : b.wf) : (b.encode false).length = BLOCK_HEADER_SIZE + (encTxs b.txs).length :=
+  Block.encode_full_length b h
+
+/-! ### chain-sync record and peer messages -/
+theorem ghost_roundtrip (fl : CodecFlags) (g : Ghost) (h : g.wf) : Ghost.decode fl g.encode = .ok g :=
+  Ghost.decode_encode fl g h
+
+/-- structurally valid messages of the fixed-layout tags (handshake response and service lists, whose payload
+    is free text, are covered by the correspondence run only) -/
+def msgWf : Msg → Prop
+  | .challenge c => c.length = 32
+  | .block b => b.wf
+  | .tx t => t.wf
+  | .chainReq _ h f => h.length = 32 ∧ f.length = 32
+  | .headerHash h _ => h.length = 32
+  | .ping => True
+  | .spv => True
+  | .ghost g => g.wf
+  | .ghostReq _ h f => h.length = 32 ∧ f.length = 32
+  | .app t _ _ => t = 12 ∨ t = 13 ∨ t = 14
+  | .keyList ks => ∀ k ∈ ks, k.length = 33
+  | .response _ => False
+  | .services _ => False
+
+/-- every message tag in `msgWf` round-trips: the tag table of `Message::serialize` / `deserialize` agrees -/
+theorem msg_roundtrip (fl : CodecFlags) (m : Msg) (h : msgWf m) : Msg.decode fl m.encode = .ok m := by
+  cases m with
+  | challenge c =>
+    simp only [msgWf] at h
+    simp [Msg.encode, Msg.tag, Msg.body, Msg.decode, h]
+    exact List.take_of_length_le (by omega)
+  | block b => simp [Msg.encode, Msg.tag, Msg.body, Msg.decode, Block.decode_encode fl b h, Res.map, Res.bind]
+  | tx t => simp [Msg.encode, Msg.tag, Msg.body, Msg.decode, Tx.decode_encode fl t h, Res.map, Res.bind]
+  | chainReq id a f =>
+    obtain ⟨h1, h2⟩ := h
+    simp only [Msg.encode, Msg.tag, Msg.body, Msg.decode]
+    have hl : (toBE 8 id.toNat ++ (a ++ f)).length = 72 := by simp [h1, h2]
+    simp only [UInt8.toNat_ofNat, hl, ne_eq, not_true_eq_false, ↓reduceIte]
+    rw [take_append_len _ _ 8 (toBE_length _ _), show (40 : Nat) = 8 + 32 from rfl, ← List.drop_drop,
+      drop_append_len _ _ 8 (toBE_length _ _), take_append_len _ _ 32 h1, drop_append_len _ _ 32 h1, u64_toBE]
+  | headerHash a id =>
+    simp only [msgWf] at h
+    simp only [Msg.encode, Msg.tag, Msg.body, Msg.decode]
+    have hl : (a ++ toBE 8 id.toNat).length = 40 := by simp [h]
+    simp only [UInt8.toNat_ofNat, hl, ne_eq, not_true_eq_false, ↓reduceIte]
+    rw [take_append_len _ _ 32 h, drop_append_len _ _ 32 h, u64_toBE]
+  | ping => simp [Msg.encode, Msg.tag, Msg.body, Msg.decode]
+  | spv => simp [Msg.encode, Msg.tag, Msg.body, Msg.decode]
+  | ghost g => simp [Msg.encode, Msg.tag, Msg.body, Msg.decode, Ghost.decode_encode fl g h, Res.map, Res.bind]
+  | ghostReq id a f =>
+    obtain ⟨h1, h2⟩ := h
+    simp only [Msg.encode, Msg.tag, Msg.body, Msg.decode]
+    have hl : (toBE 8 id.toNat ++ (a ++ f)).length = 72 := by simp [h1, h2]
+    simp only [UInt8.toNat_ofNat, hl, ne_eq, not_true_eq_false, ↓reduceIte]
+    rw [take_append_len _ _ 8 (toBE_length _ _), show (40 : Nat) = 8 + 32 from rfl, ← List.drop_drop,
+      drop_append_len _ _ 8 (toBE_length _ _), take_append_len _ _ 32 h1, drop_append_len _ _ 32 h1, u64_toBE]
+  | app t idx d =>
+    simp only [msgWf] at h
+    rcases h with rfl | rfl | rfl <;>
+    · simp only [Msg.encode, Msg.tag, Msg.body, Msg.decode, UInt8.toNat_ofNat]
+      have hl : ¬ (toBE 4 idx.toNat ++ d).length < 4 := by simp
+      simp only [hl, ↓reduceIte]
+      rw [take_append_len _ _ 4 (toBE_length _ _), drop_append_len _ _ 4 (toBE_length _ _), u32_toBE]
+  | keyList ks =>
+    simp only [msgWf] at h
+    have hl := flatten_length_const 33 ks h
+    simp only [Msg.encode, Msg.tag, Msg.body, Msg.decode, UInt8.toNat_ofNat, hl]
+    have h1 : 33 * ks.length % 33 = 0 := Nat.mul_mod_right 33 ks.length
+    have h2 : 33 * ks.length / 33 = ks.length := Nat.mul_div_cancel_left ks.length (by decide)
+    simp only [h1, ne_eq, not_true_eq_false, ↓reduceIte, h2, decKeys]
+    have := chunks_flatten 33 ks h []
+    rw [List.append_nil] at this
+    rw [this]
+  | response r => exact absurd h (by simp [msgWf])
+  | services l => exact absurd h (by simp [msgWf])
 
 /-- non-vacuity: a concrete transaction with two slips, data and a hop satisfies `wf` -/
 def sampleSlip : Slip := ⟨List.replicate 33 7, 5, 2, 1, 0, 3⟩
